@@ -190,7 +190,10 @@ class psinc(sym.Function):
             if val.is_integer and val.is_even:
                 return S.One
             if val.is_integer and val.is_odd:
-                return -S.One
+                if M.is_integer and M.is_odd:
+                    return S.One
+                if M.is_integer and M.is_even:
+                    return -S.One
 
             x = sym.pi * val
             return sym.sin(M * x) / (M * sym.sin(x))
